@@ -401,6 +401,9 @@ def sort_order_rule(ctx, res):
                 break
             results.append("values")
         else:
+            if isinstance(rv, Top) and isinstance(rv.tag, str) and rv.tag.startswith("ext:") and "cmp" in rv.tag:
+                ok, why = False, "the comparator returns the comparison of the keys alone: entries with the same key are not ordered by value"
+                break
             if not isinstance(rv, Agg):
                 ok, why = False, "result %r" % (rv,)
                 break
